@@ -783,6 +783,12 @@ class Eval:
             if o == 'Sub' and isinstance(r, int) and r < 0:
                 raise EvalPanic('subtraction underflow')
             return r
+        if k == 'idx' and isinstance(t[1], tuple) and t[1][0] == 'call' and re.search(r'core::num::to_(le|ne)_bytes$', short(t[1][1])) and len(t[1][2]) == 1:
+            # byte k of an integer (little endian; native = little endian on the targets analysed)
+            i0 = self.val(t[2])
+            x0 = self.val(t[1][2][0])
+            if isinstance(i0, int) and isinstance(x0, int) and x0 >= 0:
+                return (x0 >> (8 * i0)) & 0xFF
         if k == 'ovf':
             inner = t[1]
             x, y = self.val(inner[2]), self.val(inner[3])
